@@ -192,28 +192,352 @@ pub fn run(ctx: &Ctx) -> i32 {
     }
     let tier = ctx.tier;
     let n_trials = tier.pick(200, 5_000);
+    let n_sim = tier.pick(1_500, 40_000);
     let cfg = RunCfg {
         property: "C08",
         tier,
         seed: ctx.seed,
-        scenarios: n_trials,
+        scenarios: n_trials + n_sim,
         threads: 8,
         watchdog: Duration::from_secs(90),
         budget: Duration::from_secs(tier.pick(120, 1500)),
         only: ctx.only,
     };
-    let summary: Summary = runner::run_scenarios(&cfg, teardown_trial);
+    let summary: Summary = runner::run_scenarios(&cfg, move |i, s| if i < n_trials { teardown_trial(i, s) } else { sim_scenario(i - n_trials, s) });
     runner::finish(Report {
         property: "C08",
         tier,
         seed: ctx.seed,
         level: "fault_enumeration",
-        rule: "fault = the instant at which the runtime is torn down / the network is shut down. E2: sub-process trials with 4-6 real Networks on UDP loopback, a 4-worker runtime, continuous explicit dials, background dials (incl. a black-holed High peer), disconnects and RPCs; the tear-down delay walks a 0-50 ms grid in 250 us steps in five modes (drop runtime with handles alive, drop handles first, drop while shutdown() is in progress, after shutdown() completed, shutdown + immediate re-bind of the address); oracle: no panic line on stderr, exit 0, drop(runtime) returns, after shutdown(): closed, no peers, subscribe errs, weak refs dead, address re-bindable; a trial that does not finish in 40 s is a violation only if a CPU-accumulating thread with connection-manager frames is found (gdb), else inconclusive".into(),
+        rule: "E1: simulated shutdown (virtual time) of a network with a seeded in-flight mix (RPCs in both directions with fast/slow/never-finishing handlers, handlers holding an upgraded NetworkRef, dials to black-holed/reachable/wrong-identity addresses, an inbound handshake whose acknowledgement is withheld, background dials, racing API calls, repeated shutdown() calls), at an instant swept in 100 us / 1 ms steps, by shutdown() or by dropping the last handle; oracle: completes within shutdown_idle_timeout + 1 s, then closed/no peers/subscribe errs/weak refs dead/0 live service clones, subscriber gets its LostPeer events then end-of-stream, every pending call returns, calls issued afterwards fail promptly, remote peers drop the network, no panic. fault = the instant at which the runtime is torn down / the network is shut down. E2: sub-process trials with 4-6 real Networks on UDP loopback, a 4-worker runtime, continuous explicit dials, background dials (incl. a black-holed High peer), disconnects and RPCs; the tear-down delay walks a 0-50 ms grid in 250 us steps in five modes (drop runtime with handles alive, drop handles first, drop while shutdown() is in progress, after shutdown() completed, shutdown + immediate re-bind of the address); oracle: no panic line on stderr, exit 0, drop(runtime) returns, after shutdown(): closed, no peers, subscribe errs, weak refs dead, address re-bindable; a trial that does not finish in 40 s is a violation only if a CPU-accumulating thread with connection-manager frames is found (gdb), else inconclusive".into(),
         assumptions: vec!["tear-down instants are sampled on a time grid and depend on OS scheduling".into()],
         summary,
         extra: Default::default(),
         exhaustive: None,
         min_signatures: 6,
-        required_counters: vec!["teardown_trials", "teardown_rpcs_ok_before", "rebind_checks"],
+        required_counters: vec!["teardown_trials", "teardown_rpcs_ok_before", "rebind_checks", "sim_shutdowns", "sim_inflight_items", "sim_by_drop", "sim_by_shutdown_call"],
     })
+}
+
+// ------------------------------------------------------------------------------------------------
+// E1: shutdown at a swept instant of a simulated in-flight mix (virtual time)
+
+use crate::{
+    fabric::LinkParams,
+    world::{self, DrainEnd, NodeCfg, RpcSpec, Script, World, NEVER},
+};
+use anemo::types::{PeerAffinity, PeerEvent, PeerInfo};
+use rand::{rngs::StdRng, Rng, SeedableRng};
+use std::sync::atomic::Ordering;
+
+pub fn sim_scenario(idx: usize, seed: u64) -> ScenarioResult {
+    let _ = runner::take_panics();
+    let res = runner::sim_block_on(|| async move {
+        let mut w = World::new(seed);
+        let mut rng = StdRng::seed_from_u64(seed ^ 0xc08);
+        let lat = Duration::from_millis(rng.gen_range(1..6));
+        w.fabric.set_default_link(LinkParams::fixed(lat));
+        w.fabric.enable_tap(true);
+        let idle_ms: u64 = *[500u64, 2_000].get(idx % 2).unwrap();
+        let by_drop = (idx / 2) % 3 == 2; // one third: drop the last handle instead of shutdown()
+        let mk = |w: &mut World, idle_ms: u64| {
+            let mut c = NodeCfg::new(w.gen_key());
+            c.config.shutdown_idle_timeout_ms = Some(idle_ms);
+            c.config.connect_timeout_ms = Some(3_000);
+            c.config.connectivity_check_interval_ms = Some(200);
+            let mut q = anemo::QuicConfig::default();
+            q.max_idle_timeout_ms = Some(8_000);
+            q.keep_alive_interval_ms = Some(2_000);
+            c.config.quic = Some(q);
+            c
+        };
+        let cs = mk(&mut w, idle_ms);
+        let s = w.start_node(cs).unwrap();
+        let mut peers = Vec::new();
+        for _ in 0..3 {
+            let c = mk(&mut w, 1_000);
+            peers.push(w.start_node(c).unwrap());
+        }
+        // established: S -> P0 (outbound at S), P1 -> S (inbound at S)
+        if s.net.connect(peers[0].addr).await.is_err() || peers[1].net.connect(s.addr).await.is_err() {
+            w.close();
+            return ScenarioResult::inconclusive("setup dial failed");
+        }
+        tokio::time::sleep(Duration::from_millis(100)).await;
+        let weak = s.net.downgrade();
+        let (s_idx, s_addr, s_id) = (s.idx, s.addr, s.peer_id);
+        let svc_live = s.svc_live.clone();
+        // ---- the in-flight mix
+        let mut pending: Vec<(String, tokio::task::JoinHandle<bool>)> = Vec::new();
+        let mut mix: Vec<&'static str> = Vec::new();
+        let spawn_rpc = |from_net: anemo::Network, from_idx: usize, to: anemo::PeerId, delay: u64, hold: bool, log: std::sync::Arc<world::Log>| {
+            tokio::spawn(async move {
+                let mut spec = RpcSpec::simple(500, 1).with_script(Script { delay_us: delay, resp_len: 50_000, status: 200, nhdr: 0, seed: 9 });
+                if hold {
+                    spec.headers.insert("vhold".into(), "1".into());
+                }
+                let (_, r) = world::rpc(&log, &from_net, from_idx, to, &spec).await;
+                r.is_ok()
+            })
+        };
+        for _ in 0..rng.gen_range(0..6) {
+            let delay = *[0u64, 20_000, 5_000_000, NEVER].get(rng.gen_range(0..4)).unwrap();
+            pending.push(("rpc S->P0".into(), spawn_rpc(s.net.clone(), s_idx, peers[0].peer_id, delay, false, w.log.clone())));
+            mix.push("rpc-out");
+        }
+        for _ in 0..rng.gen_range(0..6) {
+            let delay = *[0u64, 20_000, 5_000_000, NEVER].get(rng.gen_range(0..4)).unwrap();
+            let hold = rng.gen_bool(0.3);
+            pending.push(("rpc P1->S".into(), spawn_rpc(peers[1].net.clone(), peers[1].idx, s_id, delay, hold, w.log.clone())));
+            mix.push(if hold { "rpc-in-holding-networkref" } else { "rpc-in" });
+        }
+        if rng.gen_bool(0.6) {
+            let n = s.net.clone();
+            pending.push(("dial S->blackhole".into(), tokio::spawn(async move { n.connect("10.98.0.1:1".parse::<std::net::SocketAddr>().unwrap()).await.is_ok() })));
+            mix.push("dial-blackhole");
+        }
+        if rng.gen_bool(0.6) {
+            let n = s.net.clone();
+            let a = peers[2].addr;
+            pending.push(("dial S->P2".into(), tokio::spawn(async move { n.connect(a).await.is_ok() })));
+            mix.push("dial-reachable");
+        }
+        if rng.gen_bool(0.4) {
+            let n = s.net.clone();
+            let (a, wrong) = (peers[2].addr, peers[0].peer_id);
+            pending.push(("pinned dial S->P2 expecting P0".into(), tokio::spawn(async move { n.connect_with_peer_id(a, wrong).await.is_ok() })));
+            mix.push("dial-wrong-pin");
+        }
+        if rng.gen_bool(0.5) {
+            // inbound handshake held half-way: S's datagrams towards P2 are withheld for a while
+            let (sa, pa) = (s_addr, peers[2].addr);
+            w.fabric.add_drop_rule(rng.gen_range(1..6), Box::new(move |t| t.src == sa && t.dst == pa));
+            let n = peers[2].net.clone();
+            pending.push(("dial P2->S (ack withheld)".into(), tokio::spawn(async move { n.connect(sa).await.is_ok() })));
+            mix.push("inbound-handshake-halfway");
+        }
+        if rng.gen_bool(0.5) {
+            s.net.known_peers().insert(PeerInfo {
+                peer_id: world::peer_id_of_key(&w.gen_key()),
+                affinity: PeerAffinity::High,
+                address: vec!["10.98.0.2:1".parse::<std::net::SocketAddr>().unwrap().into()],
+            });
+            mix.push("background-dial");
+        }
+        // the shutdown instant is the enumerated fault: 100 us steps through the first handshakes,
+        // 1 ms steps afterwards
+        let off_us: u64 = if idx % 4 < 2 { (idx as u64 / 4 % 64) * 100 } else { (idx as u64 / 4 % 64) * 1_000 };
+        tokio::time::sleep(Duration::from_micros(off_us)).await;
+        // concurrent API calls racing the shutdown
+        let n_extra_shutdowns = rng.gen_range(0..3);
+        for k in 0..n_extra_shutdowns {
+            let n = s.net.clone();
+            let d = Duration::from_micros(rng.gen_range(0..3_000));
+            pending.push((format!("shutdown #{}", k + 2), tokio::spawn(async move {
+                tokio::time::sleep(d).await;
+                let _ = n.shutdown().await;
+                true
+            })));
+            mix.push("repeated-shutdown");
+        }
+        {
+            let n = s.net.clone();
+            let a = peers[2].addr;
+            let p0 = peers[0].peer_id;
+            let log = w.log.clone();
+            pending.push(("api calls racing".into(), tokio::spawn(async move {
+                for _ in 0..20 {
+                    let _ = n.peers();
+                    let _ = n.subscribe();
+                    let _ = n.disconnect(p0);
+                    let _ = tokio::time::timeout(Duration::from_secs(20), n.connect(a)).await;
+                    let _ = tokio::time::timeout(Duration::from_secs(20), world::rpc(&log, &n, s_idx, p0, &RpcSpec::simple(10, 2))).await;
+                    tokio::time::sleep(Duration::from_micros(300)).await;
+                }
+                true
+            })));
+        }
+        let connected_before: Vec<anemo::PeerId> = s.net.peers();
+        let lists_s_before: Vec<usize> = peers.iter().enumerate().filter(|(_, p)| p.net.peers().contains(&s_id)).map(|(i, _)| i).collect();
+        let mut problems: Vec<String> = Vec::new();
+        let t0 = w.now();
+        let bound_us = idle_ms * 1_000 + 1_000_000;
+        let mut shutdown_took = 0u64;
+        let s_sync = s; // keep Node (and its synchronous subscription) for the event checks
+        if by_drop {
+            // abort every task holding a clone, then drop the last handle
+            for (_, h) in pending.drain(..) {
+                h.abort();
+            }
+            tokio::time::sleep(Duration::from_micros(10)).await;
+        } else {
+            match tokio::time::timeout(Duration::from_micros(bound_us + 30_000_000), s_sync.net.shutdown()).await {
+                Ok(_) => {
+                    shutdown_took = w.now() - t0;
+                    if shutdown_took > bound_us {
+                        problems.push(format!("shutdown() took {shutdown_took} us of virtual time; bound is shutdown_idle_timeout ({idle_ms} ms) + 1 s; in flight: {mix:?}"));
+                    }
+                }
+                Err(_) => problems.push(format!("shutdown() did not return within {} s; in flight: {mix:?}", (bound_us + 30_000_000) / 1_000_000)),
+            }
+        }
+        // take what we need from the node, then drop its handle
+        let (evs_sync, sync_rx_node) = {
+            let node = s_sync;
+            if by_drop {
+                let net = node.net.clone();
+                drop(net);
+            }
+            // keep only the subscription
+            let crate::world::Node { net, sync_rx, sync_state, .. } = node;
+            let after = if by_drop { None } else { Some(net.clone()) };
+            drop(net);
+            ((sync_rx, sync_state), after)
+        };
+        let net_after = sync_rx_node;
+        if by_drop {
+            // same end state within the same bound, observed through the weak ref / counters
+            let ok = world::wait_until(Duration::from_micros(bound_us), Duration::from_millis(5), || weak.upgrade().is_none() && svc_live.load(Ordering::SeqCst) == 0).await;
+            shutdown_took = w.now() - t0;
+            if !ok {
+                problems.push(format!("after dropping the last handle the network was not torn down within the bound (weak upgradable: {}, live service clones: {})", weak.upgrade().is_some(), svc_live.load(Ordering::SeqCst)));
+            }
+        }
+        // ---- afterwards
+        if let Some(n) = &net_after {
+            if !n.is_closed() {
+                problems.push("is_closed() is false after shutdown() returned".into());
+            }
+            if !n.peers().is_empty() {
+                problems.push("peers() is not empty after shutdown".into());
+            }
+            if n.subscribe().is_ok() {
+                problems.push("subscribe() succeeds after shutdown".into());
+            }
+            let live = svc_live.load(Ordering::SeqCst);
+            if live != 0 {
+                problems.push(format!("{live} clones of the user's service are still alive after shutdown() returned"));
+            }
+            // API calls issued after shutdown: error, promptly
+            let a = peers[2].addr;
+            let p0 = peers[0].peer_id;
+            let t = w.now();
+            let r1 = tokio::time::timeout(Duration::from_secs(5), n.connect(a)).await;
+            let r2 = tokio::time::timeout(Duration::from_secs(5), n.rpc(p0, anemo::Request::new(bytes::Bytes::new()))).await;
+            let r3 = n.disconnect(p0);
+            let r4 = tokio::time::timeout(Duration::from_secs(5), n.shutdown()).await;
+            for (name, ok, hung) in [
+                ("connect", matches!(r1, Ok(Ok(_))), r1.is_err()),
+                ("rpc", matches!(r2, Ok(Ok(_))), r2.is_err()),
+                ("shutdown", matches!(r4, Ok(Ok(_))), r4.is_err()),
+            ] {
+                if hung {
+                    problems.push(format!("{name}() issued after shutdown hangs"));
+                } else if ok {
+                    problems.push(format!("{name}() issued after shutdown succeeded"));
+                }
+            }
+            if r3.is_ok() {
+                problems.push("disconnect() issued after shutdown succeeded".into());
+            }
+            let _ = t;
+        }
+        if weak.upgrade().is_some() {
+            problems.push("a weak reference still upgrades after shutdown".into());
+        }
+        // subscriber: pending LostPeer events, then end-of-stream
+        {
+            let (rx, state) = evs_sync;
+            let mut rx = rx.into_inner().unwrap();
+            let mut st = state.into_inner().unwrap();
+            let mut closed = false;
+            let mut lost = 0;
+            loop {
+                match rx.try_recv() {
+                    Ok(PeerEvent::NewPeer(p)) => {
+                        st.insert(p);
+                    }
+                    Ok(PeerEvent::LostPeer(p, _)) => {
+                        lost += 1;
+                        if !st.remove(&p) {
+                            problems.push("subscriber received LostPeer for a peer that was not connected in its view".into());
+                        }
+                    }
+                    Err(tokio::sync::broadcast::error::TryRecvError::Closed) => {
+                        closed = true;
+                        break;
+                    }
+                    Err(tokio::sync::broadcast::error::TryRecvError::Empty) => break,
+                    Err(tokio::sync::broadcast::error::TryRecvError::Lagged(_)) => break,
+                }
+            }
+            if !closed {
+                problems.push("subscriber stream did not end after shutdown".into());
+            }
+            if !st.is_empty() {
+                problems.push(format!("subscriber never received LostPeer for {} peer(s) that were connected when the network shut down", st.len()));
+            }
+            let _ = (lost, DrainEnd::Closed);
+        }
+        // pending calls: all return
+        for (name, h) in pending.drain(..) {
+            match tokio::time::timeout(Duration::from_secs(30), h).await {
+                Ok(_) => {}
+                Err(_) => problems.push(format!("'{name}', pending when the network shut down, never returned")),
+            }
+        }
+        // remote peers observe the disconnect
+        // a CONNECTION_CLOSE can be held back by a full congestion window, in which case the remote
+        // end learns of the shutdown through its idle timer, which its own keep-alive re-arms once:
+        // idle timeout (8 s) + keep-alive interval (2 s) + slack
+        let dl = 8_000_000 + 2_000_000 + 2_000_000;
+        let all_lost = world::wait_until(Duration::from_micros(dl), Duration::from_millis(20), || peers.iter().all(|p| !p.net.peers().contains(&s_id))).await;
+        let mut dbg = serde_json::Map::new();
+        if !all_lost {
+            problems.push("a remote peer still lists the network after shutdown + idle timeout".into());
+            let g = w.log.lock();
+            for (i, p) in peers.iter().enumerate() {
+                dbg.insert(format!("peer{i}"), json!({
+                    "lists_s": p.net.peers().contains(&s_id),
+                    "events": g.events.get(&p.idx).map(|v| v.iter().map(|e| format!("t={} {:?}", e.t, e.ev).chars().take(70).collect::<String>()).collect::<Vec<_>>()),
+                }));
+            }
+            dbg.insert("now".into(), json!(w.now()));
+            dbg.insert("t0".into(), json!(t0));
+            dbg.insert("s_attached".into(), json!(w.fabric.is_attached(s_addr)));
+            let tap = w.fabric.take_tap();
+            let p1 = peers[1].addr;
+            dbg.insert("tap_s_p1_after_t0".into(), json!(tap.iter().filter(|r| r.t_us + 5_000 >= t0 && ((r.src == s_addr && r.dst == p1) || (r.src == p1 && r.dst == s_addr))).take(120).map(|r| format!("t={} {}->{} len={} {:?}", r.t_us, r.src.port(), r.dst.port(), r.len, r.fate)).collect::<Vec<_>>()));
+        }
+        let sample = json!({"kind": "simulated shutdown", "scenario": idx, "seed": seed, "how": if by_drop {"drop last handle"} else {"shutdown()"},
+            "shutdown_idle_timeout_ms": idle_ms, "offset_us": off_us, "in_flight": mix, "connected_before": connected_before.len(),
+            "remote_listing_before": lists_s_before, "completed_after_us": shutdown_took});
+        w.close();
+        let mut res = if !problems.is_empty() {
+            let mut wit = sample;
+            wit["problems"] = json!(problems);
+            wit["debug"] = serde_json::Value::Object(dbg);
+            ScenarioResult::violated(problems[0].clone(), wit)
+        } else {
+            let mut kinds: Vec<&str> = mix.clone();
+            kinds.sort();
+            kinds.dedup();
+            ScenarioResult::held(format!("sim how={} idle={idle_ms} mix={}", if by_drop { "drop" } else { "shutdown" }, kinds.len())).with_sample(sample)
+        };
+        res.add("sim_shutdowns", 1);
+        res.add("sim_inflight_items", mix.len() as u64);
+        res.add(if by_drop { "sim_by_drop" } else { "sim_by_shutdown_call" }, 1);
+        res
+    });
+    let panics = runner::take_panics();
+    if !panics.is_empty() {
+        let first = &panics[0];
+        let mut r = ScenarioResult::violated(
+            format!("panic during shutdown: {} at {}", first.message, runner::norm_location(&first.location)),
+            json!({"scenario": idx, "seed": seed, "panics": panics}),
+        );
+        r.counters = res.counters;
+        return r;
+    }
+    res
 }
